@@ -16,3 +16,6 @@ func vNumValue(lit []byte) float64
 func vNumOverflows(lit []byte) bool
 func vAllocWatch(on bool)
 func vAllocs() int
+func vCostBytes() int
+func vCostReset()
+func vAssertCost(c bool, id string)
